@@ -71,6 +71,25 @@ def damaged_case(ctx, frame, positions, cls):
         ctx.violation("damage-wrong-error", f"{cls} error at bits {list(positions)[:8]} of a {len(frame)}-byte frame: "
                       f"{type(e).__name__} instead of RTCMParseError: {str(e)[:100]}", params)
         return False
+    if (len(frame) + sum(positions)) % 8 == 0:
+        # second route to the same parser: a non-validating reader sees the damaged bytes first, then a validating
+        # reader (raise mode) over the same bytes must still refuse them
+        import io
+
+        try:
+            list(RTCMReader(io.BytesIO(bad), validate=0, quitonerror=0))
+        except Exception:
+            pass
+        try:
+            got = RTCMReader(io.BytesIO(bad), validate=1, quitonerror=2).read()
+        except Exception:
+            got = None
+        if got is not None and got[0] is not None and bytes(got[0]) == bad:
+            ctx.violation("damage-accepted", f"{cls} error at bits {list(positions)[:8]} of a {len(frame)}-byte frame: "
+                          f"a validating reader returns the damaged frame after a non-validating reader has read the "
+                          f"same bytes", params)
+            return False
+        ctx.hit("reader_route_after_nonvalidating_reader")
     ctx.hit(cls + "_checked")
     ctx.case(bad, True)
     return True
